@@ -727,6 +727,7 @@ func parseBinOps(expr string, n *promParser.BinaryExpr) (src []Source) {
 	case n.VectorMatching.Card == promParser.CardOneToOne:
 		rhs := walkNode(expr, n.RHS)
 		for _, s = range walkNode(expr, n.LHS) {
+			before := labelSnapshot(s)
 			if n.VectorMatching.On {
 				s.FixedLabels = true
 				s = includeLabel(s, n.VectorMatching.MatchingLabels...)
@@ -767,7 +768,7 @@ func parseBinOps(expr string, n *promParser.BinaryExpr) (src []Source) {
 				s.Operation = n.VectorMatching.Card.String()
 			}
 			for _, rs := range rhs {
-				if ok, s, pos := canJoin(s, rs, n.VectorMatching); !ok {
+				if ok, s, pos := canJoin(before, s, rs, n.VectorMatching); !ok {
 					rs.IsDead = true
 					rs.IsDeadReason = s
 					rs.IsDeadPosition = pos
@@ -785,6 +786,7 @@ func parseBinOps(expr string, n *promParser.BinaryExpr) (src []Source) {
 	case n.VectorMatching.Card == promParser.CardOneToMany:
 		lhs := walkNode(expr, n.LHS)
 		for _, s = range walkNode(expr, n.RHS) {
+			before := labelSnapshot(s)
 			s = includeLabel(s, n.VectorMatching.Include...)
 			// If we have:
 			// foo * on(instance) group_left(a,b) bar{x="y"}
@@ -796,7 +798,7 @@ func parseBinOps(expr string, n *promParser.BinaryExpr) (src []Source) {
 				s.Operation = n.VectorMatching.Card.String()
 			}
 			for _, ls := range lhs {
-				if ok, s, pos := canJoin(s, ls, n.VectorMatching); !ok {
+				if ok, s, pos := canJoin(before, s, ls, n.VectorMatching); !ok {
 					ls.IsDead = true
 					ls.IsDeadReason = s
 					ls.IsDeadPosition = pos
@@ -814,6 +816,7 @@ func parseBinOps(expr string, n *promParser.BinaryExpr) (src []Source) {
 	case n.VectorMatching.Card == promParser.CardManyToOne:
 		rhs := walkNode(expr, n.RHS)
 		for _, s = range walkNode(expr, n.LHS) {
+			before := labelSnapshot(s)
 			s = includeLabel(s, n.VectorMatching.Include...)
 			if n.VectorMatching.On {
 				s = includeLabel(s, n.VectorMatching.MatchingLabels...)
@@ -822,7 +825,7 @@ func parseBinOps(expr string, n *promParser.BinaryExpr) (src []Source) {
 				s.Operation = n.VectorMatching.Card.String()
 			}
 			for _, rs := range rhs {
-				if ok, s, pos := canJoin(s, rs, n.VectorMatching); !ok {
+				if ok, s, pos := canJoin(before, s, rs, n.VectorMatching); !ok {
 					rs.IsDead = true
 					rs.IsDeadReason = s
 					rs.IsDeadPosition = pos
@@ -843,6 +846,7 @@ func parseBinOps(expr string, n *promParser.BinaryExpr) (src []Source) {
 		rhs := walkNode(expr, n.RHS)
 		for _, s = range walkNode(expr, n.LHS) {
 			var rhsConditional bool
+			before := labelSnapshot(s)
 			if n.VectorMatching.On {
 				s = includeLabel(s, n.VectorMatching.MatchingLabels...)
 			}
@@ -857,7 +861,7 @@ func parseBinOps(expr string, n *promParser.BinaryExpr) (src []Source) {
 				if isConditional {
 					rhsConditional = true
 				}
-				if ok, s, pos := canJoin(s, rs, n.VectorMatching); !ok {
+				if ok, s, pos := canJoin(before, s, rs, n.VectorMatching); !ok {
 					rs.IsDead = true
 					rs.IsDeadReason = s
 					rs.IsDeadPosition = pos
@@ -913,7 +917,17 @@ func checkConditions(s Source, op promParser.ItemType, isBool bool) (isCondition
 	return isConditional, isReturnBool
 }
 
-func canJoin(ls, rs Source, vm *promParser.VectorMatching) (bool, string, posrange.PositionRange) {
+// labelSnapshot returns a copy of s whose label slices are not shared with s.
+func labelSnapshot(s Source) Source {
+	s.IncludedLabels = slices.Clone(s.IncludedLabels)
+	s.ExcludedLabels = slices.Clone(s.ExcludedLabels)
+	s.GuaranteedLabels = slices.Clone(s.GuaranteedLabels)
+	return s
+}
+
+// canJoin checks if rs can be matched with ls. before is ls as it was before any on(...) or group_x(...)
+// labels were included into it: asking the modified ls if it can have a label from on(...) is always true.
+func canJoin(before, ls, rs Source, vm *promParser.VectorMatching) (bool, string, posrange.PositionRange) {
 	var side string
 	if vm.Card == promParser.CardOneToMany {
 		side = "left"
@@ -926,7 +940,7 @@ func canJoin(ls, rs Source, vm *promParser.VectorMatching) (bool, string, posran
 		return true, "", posrange.PositionRange{}
 	case vm.On: // ls on(...) unless rs
 		for _, name := range vm.MatchingLabels {
-			if ls.CanHaveLabel(name) && !rs.CanHaveLabel(name) {
+			if before.CanHaveLabel(name) && !rs.CanHaveLabel(name) {
 				return false, fmt.Sprintf("The %s hand side will never be matched because it doesn't have the `%s` label from `on(...)`. %s",
 					side, name, rs.LabelExcludeReason(name).Reason), rs.LabelExcludeReason(name).Fragment
 			}
